@@ -122,7 +122,10 @@ def r2(ctx: Ctx, roles) -> None:
     setter = roles.setter
     p = [q for q in setter.param_names() if q != "self"][0]
     members = ctx.sym.enum_members(Ref("class", "connection", roles.state_enum)) or {}
-    ctx.require(set(ORDER + ["CLOSED"]) == set(members), f"ConnectionState members changed: {sorted(members)}")
+    same_states = set(ORDER + ["CLOSED"]) == set(members)
+    ctx.ob("C05.R2", f"connection:{roles.state_enum}", "the visible states are exactly initialized, socket opened, handshake complete, connected, closed", same_states, f"members {sorted(members)}: the property's state machine has these five states; a further visible state (with its own connected / handshake-complete flags) is a lifecycle the statement does not allow")
+    if not same_states:
+        return
     writes = {tgt.attr: val for st, tgt, val in attr_writes(setter) if norm(tgt.value) == "self"}
     g = cfg_of(ctx, setter)
     done = occurred_before(g, lambda n: [t.attr for st, t, v in _node_attr_writes(n)])
